@@ -201,6 +201,21 @@ def run(idx, rep, tier):
         rep.ok("R1", "csvpath/matching/lark_parser.py::match grammar LALR(1)", "no shift/reduce or reduce/reduce conflict", "csvpath/matching/lark_parser.py")
     except Exception as e:  # pylint: disable=W0718
         rep.fail("R1", "csvpath/matching/lark_parser.py::match grammar LALR(1)", f"the grammar is not LALR(1): {str(e)[:300]} — two derivations may exist for one token sequence", "csvpath/matching/lark_parser.py")
+    # the REGEX terminal ends where the regex literal ends (docs/terms.md: `/(?:[^/\\]|\\.)*/` — a backslash escapes the next character):
+    # a literal that ends in an escaped backslash must not run on to the next `/` of the match part
+    rt = [t for t in mm.parser.terminals if t.name == "REGEX"]
+    badr = None
+    if len(rt) != 1:
+        badr = "terminal REGEX not found in the grammar"
+    else:
+        rx = rt[0].pattern.to_regexp()
+        for lit in (r"/\\/", r"/a\/b/", r"/\\\//", r"/x/", r"/a\\b/", r"/\\\\/", r"//"):
+            text = lit + ', #a) ~ and/or ~ regex(/y/, #b) @x = "a/b"'
+            m = re.match(rx, text)
+            if m is None or m.group(0) != lit:
+                badr = badr or (f"the regex literal {lit} followed by other components with a `/` is lexed as {m.group(0) if m else None!r}: the terminal /{rx}/ lets an escaped "
+                                "backslash swallow the closing slash, so adding a comment or a second regex() changes (breaks) the parse")
+    rep.check(badr is None, "R1", "csvpath/matching/lark_parser.py::REGEX terminal ends at the closing slash", badr or "7 literals", "csvpath/matching/lark_parser.py")
     rep.check(mm.ctor.get("ambiguity") == "explicit" and mm.ctor.get("start") == "match", "R1", "csvpath/matching/lark_parser.py::parser configuration", f"{mm.ctor}", "csvpath/matching/lark_parser.py")
     # ---- R2/R3 generated
     seed = rep.seed
